@@ -190,6 +190,20 @@ impl World {
             // known finding: the states have diverged, nothing further can be compared
             Err(Stop::Foreign("diverged after known finding".into()))
         } else {
+            // Not this property's operation. The board is still one the library handed out after a legal
+            // history, so this property's own per-state oracle applies to it as it stands: evaluate it once
+            // on the position the board actually denotes, then end the run.
+            if cx.prop == Prop::C07 {
+                if guard(|| (format!("{:#}", self.real), format!("{}", self.real))).is_err() {
+                    cx.fail("C07/panic/format".into(), format!("Display panicked on the board reached {}", what))?;
+                }
+            }
+            if bitboards_consistent(&self.real) && got.unsound().is_none() {
+                let mut w2 = World::new(self.real.clone(), got, false);
+                w2.boot_key = self.boot_key;
+                cx.hit("observed_after_foreign_divergence");
+                crate::oracle::observe(&mut w2, cx)?;
+            }
             Err(cx.foreign(&format!("desync {}", what)))
         }
     }
